@@ -42,10 +42,16 @@ int mpc_sss_gen(bn_t *x, bn_t *y, const bn_t secret, const bn_t order,
     bn_t t, *a = RLC_ALLOCA(bn_t, k);
 
     if (k < 2 || n < k) {
+        RLC_FREE(a);
         return RLC_ERR;
     }
 
     bn_null(t);
+    if (a != NULL) {
+        for (int i = 0; i < k; i++) {
+            bn_null(a[i]);
+        }
+    }
 
     RLC_TRY {
         if (a == NULL) {
@@ -53,11 +59,9 @@ int mpc_sss_gen(bn_t *x, bn_t *y, const bn_t secret, const bn_t order,
         }
 
         bn_new(t);
-        bn_null(a[0]);
         bn_new(a[0]);
         bn_copy(a[0], secret);
         for (int i = 1; i < k; i++) {
-            bn_null(a[i]);
             bn_new(a[i]);
             bn_rand_mod(a[i], order);
         }
@@ -69,8 +73,10 @@ int mpc_sss_gen(bn_t *x, bn_t *y, const bn_t secret, const bn_t order,
         RLC_THROW(ERR_CAUGHT);
     } RLC_FINALLY {
         bn_free(t);
-        for (int i = 0; i < k; i++) {
-            bn_free(a[i]);
+        if (a != NULL) {
+            for (int i = 0; i < k; i++) {
+                bn_free(a[i]);
+            }
         }
         RLC_FREE(a);
     }
@@ -91,6 +97,12 @@ int mpc_sss_key(bn_t key, const bn_t *x, const bn_t *y, const bn_t order,
     }
 
     bn_null(t);
+    if (a != NULL && b != NULL) {
+        for (int i = 0; i < k; i++) {
+            bn_null(a[i]);
+            bn_null(b[i]);
+        }
+    }
 
     RLC_TRY {
         if (a == NULL || b == NULL) {
@@ -99,8 +111,6 @@ int mpc_sss_key(bn_t key, const bn_t *x, const bn_t *y, const bn_t order,
 
         bn_new(t);
         for (int i = 0; i < k; i++) {
-            bn_null(a[i]);
-            bn_null(b[i]);
             bn_new(a[i]);
             bn_new(b[i]);
         }
@@ -136,9 +146,11 @@ int mpc_sss_key(bn_t key, const bn_t *x, const bn_t *y, const bn_t order,
         RLC_THROW(ERR_CAUGHT);
     } RLC_FINALLY {
         bn_free(t);
-        for (int i = 0; i < k; i++) {
-            bn_free(a[i]);
-            bn_free(b[i]);
+        if (a != NULL && b != NULL) {
+            for (int i = 0; i < k; i++) {
+                bn_free(a[i]);
+                bn_free(b[i]);
+            }
         }
         RLC_FREE(a);
         RLC_FREE(b);
